@@ -1099,6 +1099,8 @@ impl SwarmDriver {
 
         // push the event off thread so as to be non-blocking
         let _handle = spawn(async move {
+            #[cfg(maidsafe_safe_network_verif)]
+            crate::verif::gate("driver.queue_network_cmd", format!("{event:?}")).await;
             if capacity == 0 {
                 warn!(
                     "NetworkSwarmCmd channel is full. Await capacity to send: {:?}",
@@ -1119,6 +1121,8 @@ impl SwarmDriver {
 
         // push the event off thread so as to be non-blocking
         let _handle = spawn(async move {
+            #[cfg(maidsafe_safe_network_verif)]
+            crate::verif::gate("driver.send_event", format!("{event:?}")).await;
             if capacity == 0 {
                 warn!(
                     "NetworkEvent channel is full. Await capacity to send: {:?}",
@@ -1258,6 +1262,11 @@ impl SwarmDriver {
         }
     }
 }
+
+#[cfg(maidsafe_safe_network_verif)]
+mod verif;
+#[cfg(maidsafe_safe_network_verif)]
+pub use verif::VerifPendingGet;
 
 #[cfg(test)]
 mod tests {
